@@ -213,6 +213,8 @@ def oracleL1 (evs : List (List String)) (impl : String) : String :=
       -- the pipeline is started for the accepted input and stopped once
       let v := if v != "ok" then v else
         if obsL.contains "hp" && !prev.hook then "bad:pipeline-stopped-twice"
+        -- Dispose() (shutdown) ends whatever input there is, a relay pull too: the running pipeline is stopped, once
+        else if ev == ["D"] && prev.hook && !obsL.contains "hp" then "bad:dispose-left-the-pipeline-of-the-input-running"
         else if (obsL.any (·.startsWith "hs")) && prev.hook && !obsL.contains "hp" then "bad:pipeline-started-while-running"
         else if !dead && sn.hook != !sn.inputs.isEmpty then "bad:pipeline-state-does-not-match-input:" ++ sn.core
         -- a group that reports itself inactive is erased by the manager: with a relay-pull attempt still in flight the
